@@ -246,6 +246,9 @@ pub fn observe(bytes: Vec<u8>) -> String {
     }
     let mut out = String::new();
     obs_walk(&h, &sigs, h.items(), &mut out);
+    // the time table in fs (C12: the same time table up to the files' timescales)
+    out.push_str("|tt=");
+    out.push_str(&body.time_table.iter().map(|t| ((*t as u128) * sc).to_string()).collect::<Vec<_>>().join(","));
     out
 }
 
